@@ -56,10 +56,6 @@ Definition round_decimal (k : fk) (m e : Z) : spec_float :=
 Definition word_literals : list (string * string) :=
   [("true", "true"); ("false", "false"); ("Infinity", "Infinity"); ("NaN", "NaN"); ("__LINE__", "__LINE__");
    ("__FILE__", "__FILE__"); ("__FUNC__", "__FUNC__"); ("__CLASS__", "__CLASS__"); ("_", "placeholder")].
-(* names that may not be declared (language reference: keywords, the word literals, the placeholder) *)
-Definition reserved_words_spec : list string :=
-  ["def"; "fun"; "while"; "for"; "if"; "else"; "&&"; "||"; ","; "auto"; "return"; "break"; "true"; "false"; "class"; "attr"; "var";
-   "global"; "GLOBAL"; "_"; "__LINE__"; "__FILE__"; "__FUNC__"; "__CLASS__"].
 Definition is_id_start (c : N) : bool := ((97 <=? c)%N && (c <=? 122)%N) || ((65 <=? c)%N && (c <=? 90)%N) || (c =? 95)%N.
 Definition is_id_char (c : N) : bool := is_id_start c || is_dec c.
 Definition plain_identifier (s : list N) : bool :=
@@ -112,7 +108,7 @@ Definition spec_lit (s : list N) : string :=
 Definition spec_idv (off : nat) (s : list N) : string :=
   let t := skipn off s in
   if plain_identifier t then
-    if existsb (String.eqb (string_of_bytes t)) reserved_words_spec then "RESERVED" else "NAME " ++ hex_of_bytes t
+    if mem_bytes t reserved_words then "RESERVED" else "NAME " ++ hex_of_bytes t
   else "NOSPEC not-an-identifier".
 
 Definition spec_line (l : string) : string :=
